@@ -1,6 +1,7 @@
 """Random project generator (structured, mostly valid). Every choice comes from the rng passed in.
 focus: None | 'conflicts' | 'env' | 'build' | 'layout' biases the feature mix."""
 
+import json
 VARS = ["CFLAGS", "X", "LIBS", "Y", "notify", "OPT"]
 FEATURES = ["f0", "f1", "f2"]
 
@@ -134,7 +135,12 @@ def gen_defaults(rng, names, penv):
     if e: d["env"] = {rng.choice(["local", "export", "global"]): e}
     if pick(rng, 0.15): d["provides"] = [rng.choice(FEATURES)]
     if pick(rng, 0.1): d["conflicts"] = [rng.choice(names)]
+    # defaults' allow/block lists are extended (not replaced) by the module's own
+    if CTXNAMES and pick(rng, 0.2): d["blocklist"] = rng.sample(CTXNAMES, rng.randint(1, min(2, len(CTXNAMES))))
+    if CTXNAMES and pick(rng, 0.15): d["allowlist"] = rng.sample(CTXNAMES, rng.randint(1, min(2, len(CTXNAMES))))
     return d
+
+CTXNAMES = []
 
 def gen_project(rng, size="small", features=None, focus=None):
     global VARS, MULTIKEY
@@ -169,6 +175,10 @@ def gen_project(rng, size="small", features=None, focus=None):
             bd["var_options"] = {rng.choice(["CFLAGS", "LIBS", "X"]): {k: v for k, v in
                                  (("joiner", ","), ("prefix", "-p"), ("suffix", ";"), ("start", "<"), ("end", ">")) if pick(rng, 0.5)}}
         builders.append(bd)
+    if pick(rng, 0.12):
+        # no env on the default context: its variables move to the builders (contexts without any env up the chain exist)
+        env0 = contexts[0].pop("env")
+        for bd in builders: bd["env"] = dict(env0, **bd.get("env", {}))
     all_ctx = contexts + builders
     mod_names = ["m%d" % i for i in range(rng.randint(2, 6 if size == "small" else 8))]
     names = mod_names + FEATURES[:rng.randint(0, 3)]
@@ -179,6 +189,8 @@ def gen_project(rng, size="small", features=None, focus=None):
         if pick(rng, 0.07): c["provides_unique"] = [rng.choice(FEATURES)]
         if pick(rng, 0.08): c["tasks"] = {rng.choice(["t1", "t3"]): rand_task(rng, names)}
     ctx_all_names = ["default"] + ctx_names + [b["name"] for b in builders]
+    global CTXNAMES
+    CTXNAMES = list(ctx_all_names)
     modules = []
     for n in mod_names:
         ndef = 2 if pick(rng, 0.2) else 1
@@ -210,7 +222,7 @@ def gen_project(rng, size="small", features=None, focus=None):
         if pick(rng, 0.08) and len(ctx_all_names) >= 2 and not isinstance(a.get("context"), list):
             # the same app name declared again for another context (names are unique per context only)
             other = [c for c in ctx_all_names if c != a.get("context", "default")]
-            apps.append(dict(a, context=rng.choice(other), sources=["alt%d.c" % i]))
+            apps.append(dict(json.loads(json.dumps(a)), context=rng.choice(other), sources=["alt%d.c" % i]))
     seen_dl = set()
     for m in modules:
         if "download" in m:
